@@ -26,11 +26,11 @@ ALL = ['C01', 'C02', 'C03', 'C04', 'C05', 'C07', 'C08', 'C09', 'C10', 'C11', 'C1
        'C15', 'C17', 'C18', 'C20']
 
 
-def _digests(pid, n, P, S):
+def _digests(pid, n, P, S, shift=0):
     jobs = []
     for k in range(P):
         for s in range(S):
-            jobs.append((k, k + P * s, P * S))
+            jobs.append(((k + shift) % 64, k + P * s, P * S))
     out = {}
     errs = []
     with concurrent.futures.ThreadPoolExecutor(16) as ex:
@@ -60,9 +60,13 @@ def determinism(pids, n):
         b, eb = _digests(pid, n, 8, 4)
         mism = sorted(i for i in a if b.get(i) != a[i])
         missing = sorted(set(range(n)) - set(a))
+        c, _ec = _digests(pid, min(n, 64), 8, 1, shift=3)
+        other = sorted(i for i in c if a.get(i) != c[i])
         print('%s determinism: %d runs compared across two shardings (8 and 32 workers), '
-              '%d mismatches%s' % (pid, len(a), len(mism),
-                                   (' errors: %s' % (ea + eb)[:2]) if (ea or eb) else ''))
+              '%d mismatches%s; under a different PYTHONHASHSEED %d of %d digests differ '
+              '(informational: the class is part of the recorded schedule)'
+              % (pid, len(a), len(mism),
+                 (' errors: %s' % (ea + eb)[:2]) if (ea or eb) else '', len(other), len(c)))
         if mism or ea or eb or missing:
             print('  mismatching indices: %s missing: %s' % (mism[:10], missing[:10]))
             bad += 1
